@@ -36,8 +36,12 @@ fn mk(sub: &[Rat], main: &[Rat], sup: &[Rat]) -> Tridiagonal<Rat> {
 }
 
 fn check_exact(sub: &[Rat], main: &[Rat], sup: &[Rat], acc: &mut Acc) -> Result<(), String> {
-    let n = main.len();
     let t = mk(sub, main, sup);
+    check_object(&t, sub, main, sup, acc)
+}
+/// all observers of one (possibly history-carrying) object against the dense twin of the model
+fn check_object(t: &Tridiagonal<Rat>, sub: &[Rat], main: &[Rat], sup: &[Rat], acc: &mut Acc) -> Result<(), String> {
+    let n = main.len();
     let d = dense(sub, main, sup);
     ensure!(t.size() == n, "size() = {}", t.size());
     ensure!(t.subdiagonal().vec == sub && t.maindiagonal().vec == main && t.superdiagonal().vec == sup, "diagonal accessors");
@@ -71,7 +75,7 @@ fn check_exact(sub: &[Rat], main: &[Rat], sup: &[Rat], acc: &mut Acc) -> Result<
         }
     }
     for x in xs.iter() {
-        let y = &t * &model::to_vector(x);
+        let y = t * &model::to_vector(x);
         let e = model::matvec(&d, x);
         ensure!(y.vec == e, "&T*&x = {} expected {} (x = {})", model::showv(&y.vec), model::showv(&e), model::showv(x));
     }
@@ -284,11 +288,12 @@ const BE_THRESHOLD: f64 = 1e-13;
 fn f64_space(ctx: &Ctx, nmax: usize) {
     // strictly diagonally dominant families: main = +-(|sub|+|sup|+1 .. ), off-diagonals over a signed alphabet
     let offs = [1.0f64, -1.0, 0.5, -3.0, 1e-3, 0.0];
+    let scales = [1.0f64, 2f64.powi(-60), 1e18];
     let mut cases = vec![];
     for n in 1..=nmax {
         for a in 0..offs.len() {
             for b in 0..offs.len() {
-                for sgn in 0..3 {
+                for sgn in 0..9 {
                     cases.push((n, a, b, sgn));
                 }
             }
@@ -299,7 +304,8 @@ fn f64_space(ctx: &Ctx, nmax: usize) {
         cases.len() as u64,
         |i| format!("{:?}", cases[i as usize]),
         |i, acc| {
-            let (n, a, b, sgn) = cases[i as usize];
+            let (n, a, b, sgn9) = cases[i as usize];
+            let (sgn, scale) = (sgn9 % 3, scales[sgn9 / 3]);
             let sub: Vec<f64> = (0..n.saturating_sub(1)).map(|k| offs[a] * (1.0 + (k % 3) as f64)).collect();
             let sup: Vec<f64> = (0..n.saturating_sub(1)).map(|k| offs[b] * (1.0 + ((k + 1) % 2) as f64)).collect();
             let main: Vec<f64> = (0..n)
@@ -318,6 +324,13 @@ fn f64_space(ctx: &Ctx, nmax: usize) {
                     }
                 })
                 .collect();
+            // uniform scaling keeps diagonal dominance and conditioning
+            let sub: Vec<f64> = sub.iter().map(|v| v * scale).collect();
+            let sup: Vec<f64> = sup.iter().map(|v| v * scale).collect();
+            let main: Vec<f64> = main.iter().map(|v| v * scale).collect();
+            if scale != 1.0 {
+                acc.nontriv("uniformly scaled system");
+            }
             if sgn > 0 {
                 acc.nontriv("negative diagonal entries");
             }
@@ -559,8 +572,19 @@ impl Sut for St {
         }
         self.check()
     }
+    fn warm(&self) {
+        let n = self.main.len();
+        let rhs: Vec<Rat> = (0..n).map(|k| r(1 + k as i64)).collect();
+        let _ = catch(|| self.t.solve(&model::to_vector(&rhs)));
+        let _ = catch(|| self.t.det());
+        let _ = catch(|| &self.t * &model::to_vector(&rhs));
+        let _ = catch(|| self.t.convert());
+        let _ = catch(|| self.t.transpose());
+    }
     fn check(&self) -> Result<(), String> {
         let mut acc = Acc::new("t");
+        // the object that went through the history, not a fresh twin: anything it carries along (caches, stale fields) is observed
+        check_object(&self.t, &self.sub, &self.main, &self.sup, &mut acc)?;
         check_exact(&self.sub, &self.main, &self.sup, &mut acc)?;
         // the real object holds exactly the model's diagonals
         ensure!(self.t.subdiagonal().vec == self.sub && self.t.maindiagonal().vec == self.main && self.t.superdiagonal().vec == self.sup, "object diagonals differ from the model: {:?}", self.t);
@@ -624,7 +648,8 @@ fn main() {
     }
     explore(&ctx, "tridiagonal histories n<=3", inits.clone(), BfsOpts { max_depth: depth, state_cap: ctx.pick(1_000_000, 20_000_000) });
     if ctx.quick() {
-        crosscheck_stateright(&ctx, "tridiagonal histories n<=3", inits, depth);
+        crosscheck_stateright(&ctx, "tridiagonal histories n<=3", inits.clone(), depth);
     }
+    explore_replayed(&ctx, "clone-free histories on one Tridiagonal<Rat>", inits, BfsOpts { max_depth: ctx.pick(4, 5), state_cap: 2_000_000 });
     std::process::exit(ctx.finish());
 }
